@@ -1,9 +1,46 @@
-import Autog.Lemmas.C12CountCrossingsComposed
-/-! # C12
-    Crossing counter exactness. -/
+import Autog.Model.Phase3
+/-! # C12 — the reported crossing count is the crossing count of the drawing
+
+    (1) Counter exactness, for all bilayers: the function the model of `countCrossings` calls
+    (`countCrossingsModel`: radix scan of the position matrix, then the accumulator tree with 2^⌈log q⌉ leaves, q the
+    size of the smaller layer — exactly Go's `k := 1; for k < q { k *= 2 }`) returns the number of inverted pairs of any
+    duplicate-free edge set within bounds (`C12_counter_exact`). Tie: `T:crossings` — the model's total over the returned
+    order equals the number the real code logged, on every traced run, also beyond 64 layers.
+    (2) PARTIAL: that WMedian restores exactly the order whose count it logs, and that the positioners keep the order
+    (strictly increasing centre x along every layer list), are decided per run: `T:crossings`, `K:ordered`, the positioner
+    and router keys, and the predicate "logged = crossings recomputed from output x coordinates". -/
 
 namespace Autog
+open C12CountCrossingsComposed
 
-theorem C12_countCrossings_spec : type_of% @C12CountCrossingsComposed.countCrossings_spec := @C12CountCrossingsComposed.countCrossings_spec
+theorem ceilLog2_spec (q : Nat) : q ≤ 2 ^ ceilLog2 q := by
+  unfold ceilLog2
+  cases h : (List.range (q + 1)).find? (fun c => decide (q ≤ 2 ^ c)) with
+  | some c =>
+    have := List.find?_some h
+    simpa using this
+  | none =>
+    simp only [Option.getD_none]
+    exact Nat.le_of_lt (Nat.lt_two_pow_self)
+
+/-- the bilayer counter is exact: for every duplicate-free set of (upper position, lower position) pairs inside an
+    m × n bilayer whose lower layer is the smaller one -/
+theorem C12_counter_exact (m n : Nat) (hmn : n ≤ m) (es : List (Nat × Nat)) (hnd : es.Nodup)
+    (hb : ∀ e ∈ es, e.1 < m ∧ e.2 < n) :
+    countCrossingsModel (ceilLog2 (min m n)) m n es = crossings es := by
+  apply countCrossings_spec _ m n es hnd hb
+  have : min m n = n := Nat.min_eq_right hmn
+  rw [this]; exact ceilLog2_spec n
+
+/-- what is counted: pairs of edges whose ends are strictly inverted -/
+theorem C12_crossings_def (e : Nat × Nat) (es : List (Nat × Nat)) :
+    crossings (e :: es) = crossings es + es.countP (crossP e) := by
+  simp [crossings]
+
+/-- the count does not depend on the order in which the edges are listed -/
+theorem C12_crossings_order_irrelevant : type_of% @crossings_perm := @crossings_perm
+
+example : countCrossingsModel (ceilLog2 (min 3 3)) 3 3 [(0, 2), (1, 0), (2, 1)] = 2 := by decide +kernel
+example : crossings [(0, 2), (1, 0), (2, 1)] = 2 := by decide
 
 end Autog
